@@ -255,6 +255,20 @@ def scenarios(tier):
         add('Into/ref/' + tag, shape, [M('Into', [P('ty', ["&'static str", '&str'])], pin=True)],
             f={(vi, 1): [M('Into', [P('ty', ["&'static str", '&str'])], pin=True)] for vi in range(len(shape.variants))}, ftypes={(vi, 1): "&'static str" for vi in range(len(shape.variants))})
 
+    # ---- method paths beyond plain `a::b`: generic arguments (turbofish), leading `::`, `crate` / `self` / `super` roots, raw segments
+    paths = ['fmt_m::<u8>', 'a::Radix::<16, T>::fmt', '::a::b::f', 'crate::sup::f', 'self::f', 'super::g::f', 'a::r#fn', 'Vec::<Vec<T>>::len', "a::F::<'static, T>::f"]
+    for trait in ('Debug', 'PartialEq', 'Hash', 'PartialOrd', 'Ord', 'Clone'):
+        for shape, tag in ((sn, 'sn'), (st, 'st'), (en, 'en')):
+            pos = (len(shape.variants) - 1, 1)
+            for pi, pth in enumerate(paths):
+                if (pi + len(tag) + len(trait)) % 3 and trait != 'Debug':
+                    continue        # every path with Debug on every shape; a third of the (trait, shape, path) product elsewhere
+                add('%s/f-method-path/%s/%s' % (trait, pth, tag), shape, [M(trait)], f={pos: [M(trait, [P('method', sp_method(pth))])]})
+    for shape, tag in ((sn, 'sn'), (en, 'en')):
+        for pth in paths[:2]:
+            fm = {(vi, 0): [M('Into', [P('ty', ['u16']), P('method', sp_method(pth))], pin=True)] for vi in range(len(shape.variants))}
+            add('Into/method-path/%s/%s' % (pth, tag), shape, [M('Into', [P('ty', ['u16'])], pin=True)], f=fm, ftypes={p: 'u8' for p in shape.positions()})
+
     # ---- wide shapes: the same parameters at two-digit field positions and in the fourth variant
     w12 = S('struct', [('t', 12)])
     w4 = S('enum', [('t', 1), ('n', 5), ('t', 4), ('n', 1)])
